@@ -62,6 +62,10 @@ def build(program):
         net = pp.create_empty_network(name=program.get("name", ""), fluid=make_fluid(program["fluid_spec"]), **kwn)
     else:
         net = pp.create_empty_network(name=program.get("name", ""), fluid=program["fluid"], **kwn)
+    for ed in program.get("std_edits", []):
+        apply_std_edit(net, ed)
+    for k, v in sorted(program.get("entries", {}).items()):
+        net[k] = realise_markers(v)
     for op in program["ops"]:
         apply_create(net, op)
     for ex in program.get("extras", []):
@@ -71,6 +75,39 @@ def build(program):
             fill = {"object": None, "float32": 1.5, "int64": 7}[ex["dtype"]]
             net[t][ex["column"]] = pd.Series([fill] * len(net[t]), index=net[t].index, dtype=ex["dtype"])
     return net
+
+
+def realise_markers(v):
+    """JSON traces cannot hold tuples: {"__tuple__": [...]} stands for one."""
+    if isinstance(v, dict):
+        if set(v) == {"__tuple__"}:
+            return tuple(realise_markers(x) for x in v["__tuple__"])
+        return {k: realise_markers(x) for k, x in v.items()}
+    if isinstance(v, list):
+        return [realise_markers(x) for x in v]
+    return v
+
+
+def apply_std_edit(net, ed):
+    """User edits of the standard type library (C15: 'custom ... pump types', std types are part of what is saved)."""
+    from pandapipes.std_types.std_type_class import PumpStdType
+    kind = ed["kind"]
+    if kind == "pipe_change":
+        if ed["name"] not in net.std_types["pipe"]:
+            return   # (the library of a restricted sector does not hold this type)
+        data = dict(net.std_types["pipe"][ed["name"]])
+        data.update(ed["data"])
+        pp.create_std_type(net, "pipe", ed["name"], data, overwrite=True)
+    elif kind == "pipe_new":
+        pp.create_std_type(net, "pipe", ed["name"], dict(ed["data"]))
+    elif kind == "pipe_delete":
+        net.std_types["pipe"].pop(ed["name"], None)
+    elif kind == "pump_redefine":
+        pp.create_pump_std_type(net, ed["name"], PumpStdType(ed["name"], list(ed["coeffs"])), overwrite=True)
+    elif kind == "pump_delete":
+        net.std_types["pump"].pop(ed["name"], None)
+    else:
+        raise ValueError(kind)
 
 
 def apply_create(net, op):
